@@ -299,6 +299,13 @@ def lookup(unit, block, qname, key, depth=0, fn=None, env=None, raw_result=False
         if k == "CallExpr" and A.callee_name(n) in ("atoi", "atol") and len(ks) == 2:
             m_ = __import__("re").match(r"\s*([+-]?\d+)", text(ev.ev(ks[1]), n))
             return int(m_.group(1)) if m_ else 0
+        if k == "CallExpr" and A.callee_name(n) in ("isdigit", "isalpha", "isspace", "isalnum", "isupper", "islower") and len(ks) == 2:
+            c_ = ev.ev(ks[1])
+            if not isinstance(c_, int) or not -1 <= c_ <= 255:
+                raise FD.Unknown("character class of %r" % (c_,), n)
+            ch_ = chr(c_) if 0 <= c_ < 128 else ""
+            return int({"isdigit": ch_.isdigit(), "isalpha": ch_.isalpha(), "isspace": ch_ in " \t\n\r\v\f" and ch_ != "", "isalnum": ch_.isalnum(),
+                        "isupper": ch_.isupper(), "islower": ch_.islower()}[A.callee_name(n)])
         if k == "CallExpr" and A.callee_name(n) in ("min", "max", "lowest") and len(ks) == 1:
             # std::numeric_limits<int>::min(): a static member function without arguments that returns int
             cd_ = A.callee_decl(n) or {}
